@@ -291,6 +291,13 @@ class KvRun(object):
                 sim.probe('getconf-many')
             q.expect = ('value', [exp]) if single else ('dict', {name: [exp]})
             d = self.proto.get_conf_single(ask) if single else self.proto.get_conf(ask)
+        if ch.chance(1, 10, 'q5xx'):
+            # fault: Tor rejects the query with an error reply of one or several lines; the queries after it are unaffected
+            n = ch.draw(3, 'q5xxlines')
+            q.reply = Reply(552, [('mid', 'Unrecognized key "bogus%d"' % i) for i in range(n)], 'Unrecognized key "last"')
+            q.expect = ('fails', 552)
+            sim.fault('tor-rejects-query')
+            sim.probe('error-reply-multi-line' if n else 'error-reply-single-line')
         self.by_wire.append(q)
         sim.log('query', q.idx, q.kind, q.wire[:80])
         self.watch(q, d)
@@ -434,6 +441,13 @@ class KvRun(object):
     def check_result(self, q):
         sim = self.sim
         if q.expect[0] == 'refused':
+            return
+        if q.expect[0] == 'fails':
+            # get_conf() logs the error and fires with None (documented by its code, not prescribed by the statement);
+            # what must not happen is a rejected query that produces values
+            if q.outcome[0] == 'ok' and q.outcome[1] is not None:
+                sim.fail('C13.rejected-query-gave-values', '%s %r: Tor answered %r, the result is %r' % (
+                    q.kind, q.wire, q.reply.describe(), q.outcome))
             return
         if q.expect[0] == 'setconf':
             if q.outcome[0] != 'ok':
